@@ -496,7 +496,7 @@ std::unique_ptr<SyncWritableMetricStorage> Meter::RegisterSyncMetricStorage(
                                  instrument_descriptor),
 #endif
             view.GetAggregationConfig()));
-        storage_registry_[instrument_descriptor.name_] = storage;
+        storage_registry_.push_back(storage);
         multi_storage->AddStorage(storage);
         return true;
       });
@@ -554,7 +554,7 @@ std::unique_ptr<AsyncWritableMetricStorage> Meter::RegisterAsyncMetricStorage(
                                  instrument_descriptor),
 #endif
             view.GetAggregationConfig()));
-        storage_registry_[instrument_descriptor.name_] = storage;
+        storage_registry_.push_back(storage);
         static_cast<AsyncMultiMetricStorage *>(storages.get())->AddStorage(storage);
         return true;
       });
@@ -587,11 +587,11 @@ std::vector<MetricData> Meter::Collect(CollectorHandle *collector,
   std::lock_guard<opentelemetry::common::SpinLockMutex> guard(storage_lock_);
   for (auto &metric_storage : storage_registry_)
   {
-    metric_storage.second->Collect(collector, ctx->GetCollectors(), ctx->GetSDKStartTime(),
-                                   collect_ts, [&metric_data_list](const MetricData &metric_data) {
-                                     metric_data_list.push_back(metric_data);
-                                     return true;
-                                   });
+    metric_storage->Collect(collector, ctx->GetCollectors(), ctx->GetSDKStartTime(), collect_ts,
+                            [&metric_data_list](const MetricData &metric_data) {
+                              metric_data_list.push_back(metric_data);
+                              return true;
+                            });
   }
   return metric_data_list;
 }
